@@ -128,6 +128,12 @@ func scenarioC19(rc *RunCtx) *Violation {
 			v.Detail += "; history: " + strings.Join(hist, " || ")
 			return v
 		}
+		// the account given after an incremental rebuild is the account a fresh build of
+		// the same tree gives (the fresh build is the reference model)
+		if buildOK(r.Res) && buildOK(f.Res) && r.Res.Metafile != f.Res.Metafile {
+			return &Violation{Class: "metafile-of-rebuild-differs-from-fresh-build", Key: "metafile",
+				Detail: fmt.Sprintf("step %d: %s; history: %s", r.Step, firstDiff(f.Res.Metafile, r.Res.Metafile), strings.Join(hist, " || "))}
+		}
 		if buildOK(r.Res) {
 			rc.Probe("successful_build")
 		}
